@@ -10,7 +10,7 @@ WORKER = os.path.join(common.VERIF, "harness", "hash_worker.py")
 def run_job(args):
     base, k, terms, seed = args
     jf = os.path.join(base, "job%d.json" % k); json.dump({"terms": terms}, open(jf, "w"))
-    p = subprocess.run(["/venv/bin/python", WORKER, jf], env=dict(os.environ, PYTHONPATH="/repo", PYTHONHASHSEED=seed, PYTHONDONTWRITEBYTECODE="1"), capture_output=True, text=True, timeout=3000)
+    p = subprocess.run(["/venv/bin/python", WORKER, jf], env=dict(os.environ, PYTHONPATH=os.environ.get("VERIF_REPO", "/repo"), PYTHONHASHSEED=seed, PYTHONDONTWRITEBYTECODE="1"), capture_output=True, text=True, timeout=3000)
     if not os.path.exists(jf + ".out"): raise RuntimeError("hash worker failed: " + p.stderr[-600:])
     return json.load(open(jf + ".out"))
 
